@@ -1,15 +1,22 @@
 """C06 — stream join/free and ABT_finalize wait for all work, then terminate.
 Ties: T1 (skeletons of the scheduling / context-switch / life-cycle functions), T3 (vsched traces of generated work-unit
-programs validated against Model.Sched), scenario monitors + deadlock detection for the failing-input search."""
+programs validated against Model.Sched), scenario monitors + deadlock detection for the failing-input search;
+the scheduler-termination decision and the pool-consumer accounting (Props/C06Stop over Model.Stop): T1, T2 differential of the
+real has_unit / has_to_stop / check_events and of num_scheds along API histories, end-to-end search programs (checks/stop_common.py)."""
+import json
 from checks import sched_common as S
+from checks import stop_common as ST
 
-ASSUMPTIONS = list(S.BASE_ASSUMPTIONS)
+ASSUMPTIONS = list(S.BASE_ASSUMPTIONS) + list(ST.ASSUMPTIONS)
 EXTRA_T1 = [('stream.c', 'ABT_xstream_join'), ('stream.c', 'ABT_xstream_free'), ('global.c', 'ABT_finalize'), ('thread.c', 'ABT_thread_yield_to')]
 
 
 def run(res, tier, broken):
+    ST.run_stop(res, tier, broken, "C06")
     S.run_sched(res, tier, broken, "C06", EXTRA_T1)
 
 
 def replay(res, path):
+    if "stop" in json.load(open(path)):
+        return ST.replay(res, path)
     return S.replay(res, path)
